@@ -3,9 +3,9 @@ KERNS = ["q120_vec_mat1col_product_baa", "q120_vec_mat1col_product_bbb", "q120_v
 ELLC = ["ell:0", "ell:1", "ell:2", "ell:9999", "ell:10000", "ell:1000..9998", "ell:3..999", "ell:8000..10000"]
 OPFAM = ["all-maximal", "max-x-topbit-y", "max/min-alternating", "single-maximal", "topbit-random", "near-max-distinct", "max-x-proper-c"]
 FAMS = ["all-ones", "zero", "alternating", "cq-1", "cq", "single", "uniform64", "canonical", "topbit", "mixed-extremal"]
-ELL_COUNT = {0: 4000, 1: 4000, 2: 4000, 3: 1400, 4: 1400, 5: 1400, 6: 6000, 7: 1400}
-KCOUNT = {0: 20000, 1: 20000, 2: 20000, 3: 20000, 4: 20000, 5: 20000, 6: 20000, 7: 20000, 8: 16000, 9: 10000, 10: 6000, 11: 3200,
-          12: 1800, 13: 1000, 14: 600, 15: 400, 16: 280}
+ELL_COUNT = {0: 6000, 1: 6000, 2: 6000, 3: 2100, 4: 2100, 5: 2100, 6: 9000, 7: 2100}
+KCOUNT = {0: 30000, 1: 30000, 2: 30000, 3: 30000, 4: 30000, 5: 30000, 6: 30000, 7: 30000, 8: 24000, 9: 15000, 10: 9000, 11: 4800,
+          12: 2700, 13: 1500, 14: 900, 15: 600, 16: 420}
 KSPLIT = {14: 2, 15: 2, 16: 3}
 
 
@@ -20,7 +20,7 @@ def _jobs(tier):
         for side in range(4):
             jobs.append(dict(sub="split", enum=True, fix=dict(kern=kern, side=side, h=(1, 63), ellc=(0, 4), seed=0)))
         # generated ell, generated search for the a-layout pairs
-        jobs.append(dict(sub="split", count=2500 * mult, fix=dict(kern=kern, ellc=5)))
+        jobs.append(dict(sub="split", count=3500 * mult, fix=dict(kern=kern, ellc=5)))
     for k in range(0, 17):
         jobs.append(dict(sub="ntt", count=KCOUNT[k] * mult, fix=dict(k=k), split=KSPLIT.get(k, 1)))
     return jobs
